@@ -188,3 +188,8 @@ def run(ctx):
     ctx.rule("R3.3", "see C03: LOWER==ROUND_DOWN, UPPER==ROUND_UP and the other encoding witnesses")
     c03.r3_3(ctx)
     r12_4(ctx, fx)
+    from rules import idioms
+    ctx.rule("R12.5", "copies agree: the per-format arms of the switches of the floating-point layer (compute_absolute_error caches one result per analysed format and reads the traits of that format) are copies of one another; in each arm the identifiers repeat exactly as in its siblings — the slot tested is the slot returned and the slot filled, and the three traits come from one struct")
+    fxf = ctx.extract([F.driver_unit("all_headers.cc", file_re=r"(Float_(templates|inlines)|linearize|Linear_Form_templates|Interval_templates)\.hh")])
+    k = idioms.copy_paste_arms(ctx, "R12.5", fxf.functions)
+    ctx.floor("R12.5", k, 6, "switch arms that are copies of one another")
